@@ -6,6 +6,7 @@ import OV.Model.C08IntArith
 import OV.Model.C08Creation
 import OV.Model.C08Attr
 import OV.Model.C08Misc
+import OV.Model.C08Scalar
 import OV.Drivers.Loop
 /-! Line-protocol driver for C08.  `C08 <fn> <args…>` → `term @ model @ spec`.
     shape: `2,3` (`-` = rank 0); shape list: `2,3/2,1`; int list: `1,2` (`-` = empty); `N` = None. -/
@@ -21,6 +22,9 @@ def pOptInt (s : String) : Option (Option Int) := if s == "N" then some none els
 def pOptInts (s : String) : Option (Option (List Int)) := if s == "N" then some none else (pInts s).map some
 def pIL (s : String) : Option IntOrList :=
   if s.startsWith "i" then (s.drop 1).toString.toInt?.map IntOrList.int else (pInts s).map IntOrList.list
+def pDC (s : String) : Option DC :=
+  if s == "f32" then some .f32 else if s == "i64" then some .i64 else if s == "bool" then some .bool else none
+def pOptDC (s : String) : Option (Option DC) := if s == "N" then some none else (pDC s).map some
 def pBool (s : String) : Option Bool := if s == "1" then some true else if s == "0" then some false else none
 
 def shShape (s : Shape) : String := if s.isEmpty then "-" else ",".intercalate (s.map toString)
@@ -37,7 +41,7 @@ def handle (args : List String) : String :=
   match args with
   | ["flatten", s, a, b] => (do
       let s ← pShape s; let a ← pInt a; let b ← pInt b
-      pure (out (flatten.term s.length a b) (rS (flatten.model s a b)) (rS (flatten.spec s a b)))).getD bad
+      pure (out (flatten.term s a b) (rS (flatten.model s a b)) (rS (flatten.spec s a b)))).getD bad
   | ["unflatten", s, d, z] => (do
       let s ← pShape s; let d ← pInt d; let z ← pInts z
       pure (out (unflatten.term s d z) (rS (unflatten.model s d z)) (rS (unflatten.spec s d z)))).getD bad
@@ -61,7 +65,7 @@ def handle (args : List String) : String :=
       pure (out squeeze.term (rS (squeeze.model s)) (rS (squeeze.spec s)))).getD bad
   | ["squeeze_dim", s, d] => (do
       let s ← pShape s; let d ← pInt d
-      pure (out (squeeze_dim.term s.length d) (rS (squeeze_dim.model s d)) (rS (squeeze_dim.spec s d)))).getD bad
+      pure (out (squeeze_dim.term s d) (rS (squeeze_dim.model s d)) (rS (squeeze_dim.spec s d)))).getD bad
   | ["unsqueeze", s, d] => (do
       let s ← pShape s; let d ← pInt d
       pure (out (unsqueeze.term d) (rS (unsqueeze.model s d)) (rS (unsqueeze.spec s d)))).getD bad
@@ -153,8 +157,9 @@ def handle (args : List String) : String :=
       pure (out (mean_dim.term s.length z k) (rS (mean_dim.model s z k)) (rS (mean_dim.spec s z k)))).getD bad
   | [f, s, z, k] =>
     if f == "amax" || f == "amin" then (do
-      let s ← pShape s; let z ← pInts z; let k ← pBool k
-      pure (out (amax.term ("aten_" ++ f) z k) (rS (amax.model s z k)) (rS (amax.spec s z k)))).getD bad
+      let s ← pShape s; let z ← (if z == "N" then some none else (pInts z).map some); let k ← pBool k
+      let red := if f == "amax" then "ReduceMax" else "ReduceMin"
+      pure (out (amax.term red z k) (rS (amax.model s z k)) (rS (amax.spec s z k)))).getD bad
     else if f == "all_dim" || f == "any_dim" then (do
       let s ← pShape s; let d ← pInt z; let k ← pBool k
       let red := if f == "all_dim" then "ReduceMin" else "ReduceMax"
@@ -169,7 +174,7 @@ def handle (args : List String) : String :=
       pure (out (argmax.term nm s.length d k) (rS (argmax.model s d k)) (rS (argmax.spec s d k)))).getD bad
     else if f == "prod_dim" then (do
       let s ← pShape s; let d ← pInt z; let k ← pBool k
-      pure (out (prod_dim.term d k) (rS (prod_dim.model s d k)) (rS (prod_dim.spec s d k)))).getD bad
+      pure (out (prod_dim.term s.length d k) (rS (prod_dim.model s d k)) (rS (prod_dim.spec s d k)))).getD bad
     -- integer arithmetic with three ints
     else if f == "add" then (do
       let a ← pInt s; let b ← pInt z; let c ← pInt k
@@ -212,9 +217,9 @@ def handle (args : List String) : String :=
   | ["fmod", a, b] => (do
       let a ← pInt a; let b ← pInt b
       pure (out "Mod(x0,x1;fmod=1)" (toString (IntArith.fmod a b)) (toString (IntArith.specFmod a b)))).getD bad
-  | ["f32", a] => (do
-      let a ← pInt a
-      pure (out "-" (toString (IntArith.f32OfInt a)) "-")).getD bad
+  | ["div_trunc", a, b] => (do
+      let a ← pInt a; let b ← pInt b
+      pure (out "Div(x0,x1)" (toString (IntArith.divModeTrunc a b)) (toString (IntArith.specDivTrunc a b)))).getD bad
   -- pool / conv / pad attribute adjustment
   | ["avg_pool", k, s, ks, st, pd, ce, ci] => (do
       let k ← pInt k; let s ← pShape s; let ks ← pIL ks; let st ← pIL st; let pd ← pIL pd; let ce ← pBool ce; let ci ← pBool ci
@@ -250,7 +255,7 @@ def handle (args : List String) : String :=
       pure (out (gather.term s.length ix.length d) (rS (gather.model s ix d)) (rS (gather.spec s ix d)))).getD bad
   | ["repeat_interleave", s, rp, d, _] => (do
       let s ← pShape s; let rp ← pInt rp; let d ← pOptInt d
-      pure (out (repeat_interleave.term s.length rp d) (rS (repeat_interleave.model s rp d)) (rS (repeat_interleave.spec s rp d)))).getD bad
+      pure (out (repeat_interleave.term s rp d) (rS (repeat_interleave.model s rp d)) (rS (repeat_interleave.spec s rp d)))).getD bad
   | ["select_scatter", s, src, d, i] => (do
       let s ← pShape s; let src ← pShape src; let d ← pInt d; let i ← pInt i
       pure (out (select_scatter.term d i) (rS (select_scatter.model s src d i)) (rS (select_scatter.spec s src d i)))).getD bad
@@ -263,6 +268,27 @@ def handle (args : List String) : String :=
   | ["topk", s, k, d, lg, so] => (do
       let s ← pShape s; let k ← pInt k; let d ← pInt d; let lg ← pBool lg; let so ← pBool so
       pure (out (topk.term k d lg so) (rL (topk.model s k d)) (rL (topk.spec s k d)))).getD bad
+  | ["addsub", isAdd, dc, kind, a, b, al, ot] => (do
+      let isAdd ← pBool isAdd; let dc ← pDC dc; let a ← pShape a; let b ← pShape b; let al ← pInt al; let ot ← pInt ot
+      let other := if kind == "T" then "x1" else halfStr dc ot
+      pure (out (addsub.term isAdd dc other al) (rS (addsub.model isAdd dc a b al)) (rS (addsub.spec a b)))).getD bad
+  | ["clamp", dc, s, lo, hi] => (do
+      let dc ← pDC dc; let s ← pShape s; let lo ← pOptInt lo; let hi ← pOptInt hi
+      pure (out (clamp.term dc lo hi) (rS (some s)) (rS (some s)))).getD bad
+  | ["clamp_tensor", s, lo, hi, _] => (do
+      let s ← pShape s
+      let lo ← (if lo == "_" then some none else (pShape lo).map some)
+      let hi ← (if hi == "_" then some none else (pShape hi).map some)
+      let sh1 := match lo with | none => some s | some l => bcast2 s l
+      let sh2 := match sh1, hi with | some x, some h => bcast2 x h | x, _ => x
+      pure (out (clamp.termTensor lo.isSome hi.isSome) (rS sh2) (rS sh2))).getD bad
+  | ["create", kind, z, dt, _] => (do
+      let z ← pInts z; let dt ← pOptDC dt
+      let t := if kind == "full" then creation.termFull z dt else if kind == "zeros" then creation.termZeros z dt
+        else if kind == "new_full" then creation.termNewFull z dt else if kind == "new_zeros" then creation.termNewZeros z dt
+        else if kind == "full_like" then creation.termLike "7" dt else if kind == "zeros_like" then creation.termLike "0" dt
+        else creation.termLike "1" dt
+      pure (out t (rS (full.model z)) (rS (full.spec z)))).getD bad
   -- creation
   | ["linspace", n] => (do
       let n ← pInt n
